@@ -248,6 +248,7 @@ func runC26(e *core.Env, s *c26Scenario) {
 		sr.exec(i, &s.Ops[i])
 	}
 	w.Settle()
+	sr.log.checkInvocations()
 	for _, tag := range sortedTags(sr.log.byTag) {
 		recs := sr.log.byTag[tag]
 		if len(recs) != 1 {
